@@ -16,4 +16,9 @@ Definition op_okb (w : world) (o : op) : bool :=
   | _ => true
   end.
 
+(* the running-set theorem (proofs/Runs_p.v) additionally asks that a source id is defined once *)
+Definition op_okb2 (w : world) (o : op) : bool :=
+  op_okb w o && match o with ODefSource src _ => negb (is_some (get_src w src)) | _ => true end.
+
 Definition op_ok_now (x : sys) (o : op) : bool := op_okb (clear_err (s_w x)) o.
+Definition op_ok2_now (x : sys) (o : op) : bool := op_okb2 (clear_err (s_w x)) o.
